@@ -573,6 +573,19 @@ class World:
 
         sock.send_frame = send_frame
         sock.send_priority_frame = send_priority_frame
+        mx = self.opts.get('max_stream_id')
+        if mx:
+            # reduce the id space the way the library's own suite does (StreamControl._maximum_stream_id), now and whenever
+            # connect() rebuilds the internals: ids wrap around within a scenario
+            orig_reset = sock._reset_internals
+
+            def reset_internals():
+                orig_reset()
+                sock._stream_control._maximum_stream_id = mx
+
+            sock._reset_internals = reset_internals
+            if getattr(sock, '_stream_control', None) is not None:
+                sock._stream_control._maximum_stream_id = mx
 
     def _common_kwargs(self, ep):
         o = self.opts
